@@ -34,7 +34,7 @@ class C17(Harness):
         return {"trees": "1..3", "classes": "2..3", "instances": "1..2", "series_length": "3..5", "label_sets": ["ints", "strings", "non-contiguous ints"]}
 
     def cells(self, tier):
-        return [{"name": k, "kind": k, "cost": 2} for k in ("tsf-proba", "tsf-transform", "tsf-intervals", "tsf-regressor", "column-ensemble", "base-predict-score")]
+        return [{"name": k, "kind": k, "cost": 2} for k in ("tsf-proba", "tsf-transform", "tsf-transform-int", "tsf-intervals", "tsf-regressor", "column-ensemble", "base-predict-score")]
 
     def make_world(self, kind, cell):
         return _c14.HARNESS.make_world(kind, {"kind": "x"})
@@ -52,6 +52,10 @@ class C17(Harness):
             if mi >= Ln:
                 ctx.assume(False)
             return {"L": Ln, "min_interval": mi, "r": [ctx.fresh_int("r%d" % i) for i in range(4)]}
+        if k == "tsf-transform-int":
+            # an integer-typed panel (a legal 3-D array input): the features are still real-valued
+            vals = [choice("v%d" % t, 0, 2) for t in range(3)]
+            return {"x": [[vals]], "intervals": [[0, 2], [0, 3]], "int_panel": True}
         ni = choice("ni", 1, 2)
         Ln = choice("L", 3, 5 if (k != "column-ensemble" or self._tier != "quick") else 3)
         if k in ("tsf-proba", "tsf-regressor", "base-predict-score"):
@@ -113,12 +117,12 @@ class C17(Harness):
         try:
             ni, Ln = len(inp["x"]), len(inp["x"][0][0])
             xsym = any(is_sym(v) for inst in inp["x"] for col in inst for v in col)
-            X3 = np.empty((ni, len(inp["x"][0]), Ln), dtype=object if xsym else float)
+            X3 = np.empty((ni, len(inp["x"][0]), Ln), dtype=object if xsym else (np.int64 if inp.get("int_panel") else float))
             for i in range(ni):
                 for j in range(X3.shape[1]):
                     for t, v in enumerate(inp["x"][i][j]):
                         X3[i, j, t] = v
-            if k == "tsf-transform":
+            if k in ("tsf-transform", "tsf-transform-int"):
                 Xt = tsf._transform(X3[:, 0, :], np.array(inp["intervals"]))
                 return {"features": [[S(v) for v in row] for row in Xt.tolist()]}
             labels = [[0, 1, 2], ["a", "b", "c"], [3, 7, 11]][inp["labels"]]
@@ -176,7 +180,7 @@ class C17(Harness):
                 Xn, _ = _c14.HARNESS._nested(inp["x"])
                 ys = np.array((labels[:nk] * 3)[: max(ni, nk)])
                 Xfit, _ = _c14.HARNESS._nested([inp["x"][i % ni] for i in range(len(ys))])
-                ce = CE([("m%d" % e, Clf(e=e), [e % 2]) for e in range(ne)])
+                ce = CE([("m%d" % e, Clf(e=e), [e % 2]) for e in range(ne)] + [("unused", "drop", [0])])  # a member specified as 'drop' does not vote
                 ce.fit(Xfit, ys)
                 del seen[:]
                 proba = ce.predict_proba(Xn)
@@ -226,7 +230,7 @@ class C17(Harness):
             n = len(seg)
             mean = sum(seg) / n
             var = sum((v - mean) * (v - mean) for v in seg) / n
-            std = symx.sym_sqrt(var) if P.sym else var ** 0.5
+            std = symx.sym_sqrt(var) if (P.sym and is_sym(var)) else float(var) ** 0.5
             ts = [t + 1 for t in range(n)]
             tbar = Fraction(sum(ts), n) if P.sym else sum(ts) / n
             slope = sum((t - tbar) * (v - mean) for t, v in zip(ts, seg)) / sum((t - tbar) * (t - tbar) for t in ts)
@@ -237,11 +241,16 @@ class C17(Harness):
             for i in range(min(ni, len(F))):
                 for j, (a, b) in enumerate(intervals):
                     mean, std, slope, n = feats(x[i][0][a:b])
+                    if not any(is_sym(v) for v in x[i][0]):
+                        # concrete panel: the kernel stores float32 features -> compare with single-precision tolerance
+                        for got, want, nm in ((F[i][3 * j], mean, "mean"), (F[i][3 * j + 1], std, "std"), (F[i][3 * j + 2], slope, "slope")):
+                            P.check(label, abs(float(got) - float(want)) <= 1e-5 * (1 + abs(float(want))), {"feature": nm, "got": float(got), "want": float(want)})
+                        continue
                     P.eq(label, F[i][3 * j], mean, {"feature": "mean"})
                     _c14.C14._eq_tol(P, label, F[i][3 * j + 1], std, x[i][0][a:b], exact=False, detail={"feature": "std"})
                     _c14.C14._eq_tol(P, label, F[i][3 * j + 2], slope, x[i][0][a:b], exact=(n & (n - 1) == 0), detail={"feature": "slope"})
 
-        if k == "tsf-transform":
+        if k in ("tsf-transform", "tsf-transform-int"):
             check_features(out["features"], inp["intervals"])
             return
         p = inp["p"]
